@@ -120,3 +120,48 @@ lemma('wmts_rectangle', ['C02'],
           z3.And(north - z3.ToReal(row + 1) * z3.ToReal(th) * res == b1 + z3.ToReal(gh - 1 - row) * res * z3.ToReal(th),
                  north - z3.ToReal(row) * z3.ToReal(th) * res == b1 + z3.ToReal(gh - 1 - row + 1) * res * z3.ToReal(th))))(
           z3.Real('b1'), z3.Real('res'), z3.Int('th'), z3.Int('gh'), z3.Int('row'), z3.Real('north')))
+
+
+# ---- WMTS: unit of the scale denominator ----------------------------------------------------------------------------------
+contract('mapproxy.service.wmts:meter_per_unit', props=['C02'],
+         types=dict(srs='opaque'), returns='real',
+         opaque_fields={'is_latlong': 'bool', 'is_axis_order_ne': 'bool'}, stable_fields=['is_latlong', 'is_axis_order_ne'],
+         # degrees -> metres exactly for geographic systems (whatever their axis order), 1 for every projected system
+         ensures=['result == (111319.4907932736 if srs.is_latlong else 1)'],
+         must_fail='result == 1')
+
+
+# ---- KML: the rectangle advertised for a sub tile is the FULL rectangle of the tile that is served ---------------------------
+def _kml_subtile(ex, st, k):
+    import z3
+    evs_ = st.trace[getattr(st, 'iter_start_trace', 0):]
+    coord = st.env.get('coord')
+    tb = [e for e in evs_ if e.name == 'tile_bbox']
+    wgs = [e for e in evs_ if e.name in ('_tile_bbox_to_wgs', 'KMLServer._tile_bbox_to_wgs')]
+    sub = [e for e in evs_ if e.name in ('SubTile', '__init__')]
+    ext = [e for e in evs_ if e.name == 'external_tile_coord']
+    ok = True
+    for e in tb:
+        a = [x for x in e.args if x is not e.recv]
+        ok = ok and len(a) == 1 and not e.kwargs
+    if sub:
+        ok = ok and len(tb) == 1 and len(wgs) == 1 and len(sub) == 1 and len(ext) == 1
+        if ok:
+            wa = [x for x in wgs[0].args]
+            ok = any(x is tb[0].result or (hasattr(x, 'val') and x.val is tb[0].result) for x in wa) and sub[0].args[-1] is wgs[0].result
+    yield ('kml_subtile_full_rectangle', z3.BoolVal(bool(ok)),
+           'each advertised sub tile: bbox = grid.tile_bbox(coord) without limit (the full rectangle of the tile that is '
+           'served at that address), transformed to WGS84, attached to the external address of that very coord')
+
+
+contract('mapproxy.service.kml:KMLServer._get_subtiles', props=['C02'],
+         types=dict(tile_request='opaque', layer='opaque'), returns='list[opaque]', default_callee='opaque',
+         opaque_spec={'tile_bbox': {'returns': 'tuple[real,real,real,real]', 'pure': True},
+                      'internal_tile_coord': {'returns': 'tuple[int,int,int]', 'pure': True},
+                      'get_affected_level_tiles': {'returns': 'tuple[opaque,opaque,list[opt[tuple[int,int,int]]]]', 'pure': True},
+                      '_tile_bbox_to_wgs': {'pure': True}, 'external_tile_coord': {'pure': True}, 'flip_tile_coord': {'pure': True},
+                      'SubTile': {'pure': True}},
+         opaque=['_tile_bbox_to_wgs', 'SubTile', 'tile_bbox', 'internal_tile_coord', 'external_tile_coord', 'flip_tile_coord',
+                 'get_affected_level_tiles'],
+         opaque_fields={'tile': 'tuple[int,int,int]'}, stable_fields=['tile'],
+         loops={0: dict(inv=[], types={'subtiles': 'list[opaque]'}, body_trace=[_kml_subtile])})
